@@ -557,7 +557,18 @@ def gen_real_spec(rng, kind, noise, init_noise, nv, landmarks):
             return [rng.gauss(0, scale_t) for _ in range(3)]
         if kind == 'SE2':
             return [rng.gauss(0, scale_t), rng.gauss(0, scale_t), rng.gauss(0, scale_r)]
-        return [rng.gauss(0, scale_t) for _ in range(3)] + _rand_quat(rng, scale_r)
+        q = _rand_quat(rng, scale_r)
+        # quaternions as they come out of files and logs: unit to the last bit, written with 4 or 6 decimals (|q| off by ~5e-5 / 5e-7),
+        # or slightly scaled -- the library never promises to renormalise, and whatever it does the report must describe the returned graph
+        if qstyle == 'decimals4':
+            q = [round(x, 4) for x in q]
+        elif qstyle == 'decimals6':
+            q = [round(x, 6) for x in q]
+        elif qstyle == 'scaled':
+            f_ = 1.0 + rng.choice([-1, 1]) * 10.0 ** rng.uniform(-5, -2)
+            q = [x * f_ for x in q]
+        return [rng.gauss(0, scale_t) for _ in range(3)] + q
+    qstyle = rng.choice(['unit', 'unit', 'decimals4', 'decimals6', 'scaled']) if kind == 'SE3' else 'unit'
     dim = {'R2': 2, 'R3': 3, 'SE2': 3, 'SE3': 6}[kind]
     pdim = {'R2': 2, 'R3': 3, 'SE2': 2, 'SE3': 3}[kind]
     spec = {'kind': kind, 'vertices': [], 'edges': []}
